@@ -27,7 +27,10 @@ package segmenter
 //@   params rangeTab, r
 //@   ensures [membership] result == inTable(rangeTab, r)
 //@   modifies nothing
+//@ opaque isMn(r rune) bool
+//@ opaque isMc(r rune) bool
 //@ trusted std:unicodedata.LookupType
+//@   ensures [category] (result == unicode.Mn) == isMn(r) && (result == unicode.Mc) == isMc(r)
 //@   modifies nothing
 //
 // GB12/GB13: "sot (RI RI)* RI x RI" / "[^RI] (RI RI)* RI x RI": break is prohibited between the 1st and 2nd of each pair.
@@ -123,3 +126,13 @@ package segmenter
 //@   requires [iterator] gr.attributeIterator.src != nil
 //@   assert_at call Next#1 : [word-start-detected] implies(gr.attributeIterator.pos < len(gr.attributeIterator.src.text), gr.inWord == inTable(ucd.Word, gr.attributeIterator.src.text[gr.attributeIterator.pos]))
 //@   modifies unspecified
+//
+// LB1 (UAX #14): AI, SG and XX resolve to AL; SA resolves to CM for nonspacing and spacing marks (general categories Mn
+// and Mc) and to AL otherwise; CJ resolves to NS; every other class is kept.
+//@ func cursor.ruleLB1 C06
+//@   mode int
+//@   ensures [ai-sg-xx] implies(old(cr.line) == ucd.BreakAI || old(cr.line) == ucd.BreakSG || old(cr.line) == ucd.BreakXX, cr.line == ucd.BreakAL)
+//@   ensures [sa] implies(old(cr.line) == ucd.BreakSA, cr.line == ite(isMn(cr.r) || isMc(cr.r), ucd.BreakCM, ucd.BreakAL))
+//@   ensures [cj] implies(old(cr.line) == ucd.BreakCJ, cr.line == ucd.BreakNS)
+//@   ensures [others] implies(old(cr.line) != ucd.BreakAI && old(cr.line) != ucd.BreakSG && old(cr.line) != ucd.BreakXX && old(cr.line) != ucd.BreakSA && old(cr.line) != ucd.BreakCJ, cr.line == old(cr.line))
+//@   modifies cr.line
